@@ -50,6 +50,23 @@ def cancel_points(f):
     return [] if (c != "pre" and c < 0) else [c]
 
 
+STRIDE = 1000            # node ids of network k in the Lean case: worker + k * STRIDE
+
+
+def net_matrices(case):
+    """(latency, loss) matrices per network: network 0 from `lat` / `loss`, the others from `xlat` / `xloss`"""
+    out = [(case["lat"], case["loss"])]
+    for k in range(1, case.get("nets", 1)):
+        out.append((case["xlat"][k - 1], case["xloss"][k - 1]))
+    return out
+
+
+def target_net(case, f):
+    """the network a fault / call resolves to: the named one, or the first registered one"""
+    k = f.get("net")
+    return case.get("netorder", [0])[0] if k is None else k
+
+
 def manual_parts(case):
     """manual `Network.partition()` calls, numbered after the scheduled faults"""
     nf = len(case["faults"])
@@ -188,19 +205,26 @@ def run_real(case):
         workers = [QWorker(f"w{i}") for i in range(n)]
     else:
         workers = [Worker(f"w{i}") for i in range(n)]
-    net = Network("net")
+    K = case.get("nets", 1)
+    order = case.get("netorder", list(range(K)))        # registration order of the networks
+    first = order[0]                                    # what `network_name=None` resolves to
+    mats = net_matrices(case)
+
+    def nname(k):
+        return "net" if k == 0 else f"net{k}"
+
+    nets = [Network(nname(k)) for k in range(K)]
+    net_index = {id(x): k for k, x in enumerate(nets)}
     links = {}
-    pairs = [(a, b) for a in range(n) for b in range(n) if a != b]
-    for (a, b) in pairs:
-        lk = NetworkLink(f"l{a}{b}", latency=ConstantLatency(case["lat"][a][b] * U),
-                         packet_loss_rate=case["loss"][a][b] / float(CAPS))
-        net.add_link(workers[a], workers[b], lk)
-        links[(a, b)] = lk
+    pairs = [(k, a, b) for k in range(K) for a in range(n) for b in range(n) if a != b]
+    for (k, a, b) in pairs:
+        lk = NetworkLink(f"l{k}{a}{b}", latency=ConstantLatency(mats[k][0][a][b] * U),
+                         packet_loss_rate=mats[k][1][a][b] / float(CAPS))
+        nets[k].add_link(workers[a], workers[b], lk)
+        links[(k, a, b)] = lk
 
     def ename(e):
-        return "net" if e == n else f"w{e}"
-
-    pre_cancelled = []
+        return nname(e - n) if n <= e < n + K else f"w{e}"
 
     class Tagged:
         """public `Fault` protocol wrapper that remembers which events belong to which fault"""
@@ -216,17 +240,20 @@ def run_real(case):
     tagged, handles = [], []
     for f in case["faults"]:
         k, s, r = f["k"], f["s"] * U, (None if f["r"] is None else f["r"] * U)
+        nn = None if f.get("net") is None else nname(f["net"])     # None: the first registered network
         if k == "crash":
             obj = CrashNode(ename(f["e"]), at=s, restart_at=r)
         elif k == "pause":
             obj = PauseNode(ename(f["e"]), start=s, end=r)
         elif k == "part":
             obj = NetworkPartition([f"w{x}" for x in f["A"]], [f"w{x}" for x in f["B"]], start=s, end=r,
-                                   asymmetric=bool(f["asym"]))
+                                   asymmetric=bool(f["asym"]), network_name=nn)
         elif k == "lat":
-            obj = InjectLatency(f"w{f['a']}", f"w{f['b']}", extra_ms=f["x"] * 1000.0 / 512.0, start=s, end=r)
+            obj = InjectLatency(f"w{f['a']}", f"w{f['b']}", extra_ms=f["x"] * 1000.0 / 512.0, start=s, end=r,
+                                network_name=nn)
         elif k == "loss":
-            obj = InjectPacketLoss(f"w{f['a']}", f"w{f['b']}", loss_rate=f["x"] / float(CAPS), start=s, end=r)
+            obj = InjectPacketLoss(f"w{f['a']}", f"w{f['b']}", loss_rate=f["x"] / float(CAPS), start=s, end=r,
+                                   network_name=nn)
         elif k == "cap":
             obj = ReduceCapacity("res", factor=f["num"] / float(f["den"]), start=s, end=r)
         else:
@@ -237,59 +264,94 @@ def run_real(case):
         if "pre" in cancel_points(f):
             handles[-1].cancel()             # before the Simulation (and the fault's events) exist
 
-    H = case["H"]
-    try:
-        sim = Simulation(entities=workers + [sink, net, res], fault_schedule=fs, end_time=Instant(H * TICK))
-    except (KeyError, ValueError):
-        # a fault names an entity / link that is not part of the simulation
-        return ["E unknown-target"]
-    fmap = {}
-    for fid, t in enumerate(tagged):
-        for idx, ev in enumerate(t.events):
-            fmap[id(ev)] = (fid, "a" if idx == 0 else "d")
+    cmap, mmap, mh = {}, {}, {}
+    mfid = manual_parts(case)
 
-    evs = []
-    for j, job in enumerate(jobs):
-        e = Event(Instant(job["t"] * TICK), "job", target=workers[job["e"]])
-        e.context["metadata"]["job"] = j
-        evs.append(e)
-    for p, pr in enumerate(probes):
-        e = Event(Instant(pr["t"] * TICK), "probe", target=net)
-        e.context["metadata"].update(source=f"w{pr['a']}", destination=f"w{pr['b']}", probe=p)
-        evs.append(e)
-    cmap = {}
-    for fid, f in enumerate(case["faults"]):
-        for c in cancel_points(f):
-            if c == "pre":
-                continue
-            if c == 0:
-                handles[fid].cancel()
-            else:
+    def make_events():
+        """the workload: jobs, probes, cancel() calls, direct calls of the Network partition API"""
+        evs = []
+        for j, job in enumerate(jobs):
+            e = Event(Instant(job["t"] * TICK), "job", target=workers[job["e"]])
+            e.context["metadata"]["job"] = j
+            evs.append(e)
+        for p, pr in enumerate(probes):
+            e = Event(Instant(pr["t"] * TICK), "probe", target=nets[pr.get("net", 0)])
+            e.context["metadata"].update(source=f"w{pr['a']}", destination=f"w{pr['b']}", probe=p)
+            evs.append(e)
+        for fid, f in enumerate(case["faults"]):
+            for c in cancel_points(f):
+                if c == "pre" or c == 0:
+                    continue
                 ce = Event.once(Instant(c * TICK), "cancel", (lambda h: (lambda e: h.cancel()))(handles[fid]), daemon=True)
                 cmap[id(ce)] = fid
                 evs.append(ce)
-    # direct calls of the Network's partition API, interleaved with the scheduled windows
-    mmap, mh = {}, {}
-    mfid = manual_parts(case)
-    for i, m in enumerate(case.get("manual", [])):
-        if m["op"] == "part":
-            def fn(e, i=i, m=m):
-                mh[i] = net.partition([workers[x] for x in m["A"]], [workers[x] for x in m["B"]],
-                                      asymmetric=bool(m["asym"]))
-            tag = ("a", mfid[i])
-        elif m["op"] == "heal":
-            def fn(e, m=m):
-                if m["h"] in mh:
-                    mh[m["h"]].heal()
-            tag = ("d", mfid[m["h"]])
-        else:
-            def fn(e):
-                net.heal_partition()
-            tag = ("A", None)
-        me = Event.once(Instant(m["t"] * TICK), "manual", fn, daemon=True)
-        mmap[id(me)] = (tag, i)
-        evs.append(me)
+        for i, m in enumerate(case.get("manual", [])):
+            mnet = nets[m.get("net", 0)] if m["op"] != "heal" else None
+            if m["op"] == "part":
+                def fn(e, i=i, m=m, mnet=mnet):
+                    mh[i] = mnet.partition([workers[x] for x in m["A"]], [workers[x] for x in m["B"]],
+                                           asymmetric=bool(m["asym"]))
+                tag = ("a", mfid[i])
+            elif m["op"] == "heal":
+                def fn(e, m=m):
+                    if m["h"] in mh:
+                        mh[m["h"]].heal()
+                tag = ("d", mfid[m["h"]])
+            else:
+                def fn(e, mnet=mnet):
+                    mnet.heal_partition()
+                tag = ("A", m.get("net", 0))
+            me = Event.once(Instant(m["t"] * TICK), "manual", fn, daemon=True)
+            mmap[id(me)] = (tag, i)
+            evs.append(me)
+        return evs
+
+    # `early`: the workload's events exist before the Simulation (and with it the fault events)
+    early = bool(case.get("early"))
+    evs = make_events() if early else None
+    H = case["H"]
+    try:
+        sim = Simulation(entities=workers + [sink] + [nets[k] for k in order] + [res], fault_schedule=fs,
+                         end_time=Instant(H * TICK))
+    except (KeyError, ValueError):
+        # a fault names an entity / link / network that is not part of the simulation
+        return ["E unknown-target"]
+    fmap, seen = {}, set()
+    for fid, t in enumerate(tagged):
+        for idx, ev in enumerate(t.events):
+            fmap[id(ev)] = (fid, "a" if idx == 0 else "d")
+    if evs is None:
+        evs = make_events()
+    for fid, f in enumerate(case["faults"]):
+        if 0 in cancel_points(f):
+            handles[fid].cancel()
     sim.schedule(evs)
+
+    FAULT_TYPES = {"fault.crash": ("crash", "a"), "fault.restart": ("crash", "d"), "fault.pause": ("pause", "a"),
+                   "fault.resume": ("pause", "d"), "fault.partition.activate": ("part", "a"),
+                   "fault.partition.deactivate": ("part", "d"), "fault.latency.activate": ("lat", "a"),
+                   "fault.latency.deactivate": ("lat", "d"), "fault.loss.activate": ("loss", "a"),
+                   "fault.loss.deactivate": ("loss", "d"), "fault.capacity.reduce": ("cap", "a"),
+                   "fault.capacity.restore": ("cap", "d")}
+
+    def attribute(ev):
+        """a fault event that `generate_events` did not hand out (created later by the fault itself):
+        the lowest-numbered fault of that kind and target whose start / end is due now"""
+        kd = FAULT_TYPES.get(ev.event_type.split(":")[0])
+        if kd is None:
+            return None
+        kind, ad = kd
+        t = ev.time.nanoseconds
+        for fid, f in enumerate(case["faults"]):
+            if f["k"] != kind or (fid, ad) in seen:
+                continue
+            if kind in ("crash", "pause") and ev.event_type.split(":", 1)[-1] != ename(f["e"]):
+                continue
+            due = f["s"] if ad == "a" else f["r"]
+            if due is None or due * TICK != t or (ad == "d" and (fid, "a") not in seen):
+                continue
+            return fid, ad
+        return None
 
     def scaled(x):
         v = x * CAPS
@@ -297,14 +359,14 @@ def run_real(case):
         return str(iv) if iv == v else "frac"
 
     def settings(now):
-        P = "".join("1" if net.is_partitioned(f"w{a}", f"w{b}") else "0" for (a, b) in pairs) or "-"
+        P = "".join("1" if nets[k].is_partitioned(f"w{a}", f"w{b}") else "0" for (k, a, b) in pairs) or "-"
         L = " ".join(str(links[p].latency.get_latency(now).nanoseconds) for p in pairs)
         X = " ".join(scaled(links[p].packet_loss_rate) for p in pairs)
         return f"P {P} L {L} X {X} C {scaled(res.capacity)} {scaled(res.available)}".replace("  ", " ")
 
     out = []
     count = [0]
-    snap = {"part": 0, "routed": 0, "drop": {p: 0 for p in pairs}, "sent": {p: 0 for p in pairs}}
+    snap = {"part": [0] * K, "routed": [0] * K, "drop": {p: 0 for p in pairs}, "sent": {p: 0 for p in pairs}}
 
     def on_event(ev):
         count[0] += 1
@@ -314,8 +376,13 @@ def run_real(case):
         toks = " ".join(cur) if cur else "-"
         del cur[:]
         key = id(ev)
-        if key in fmap:
-            fid, ad = fmap[key]
+        # (fault events created during the run are not kept alive by the harness: never remember their id)
+        fa_ = None
+        if ev.event_type.startswith("fault."):
+            fa_ = fmap.get(key) or attribute(ev)       # (the events in `fmap` are alive for the whole run)
+        if fa_ is not None:
+            fid, ad = fa_
+            seen.add((fid, ad))
             out.append(f"F {t} {fid} {ad} | {settings(ev.time)}")
         elif key in cmap:
             out.append(f"C {t} {cmap[key]} | {settings(ev.time)}")
@@ -323,7 +390,7 @@ def run_real(case):
             (ad, fid), i = mmap[key]
             m = case["manual"][i]
             if ad == "A":
-                out.append(f"A {t} | {settings(ev.time)}")
+                out.append(f"A {t} {fid} | {settings(ev.time)}")
             elif ad == "d" and m["h"] not in mh:
                 out.append(f"U {t} heal-before-partition")
             else:
@@ -350,14 +417,16 @@ def run_real(case):
             md = ev.context["metadata"]
             p = md["probe"]
             pr = probes[p]
-            pair = (pr["a"], pr["b"])
+            pk = pr.get("net", 0)
+            net = nets[pk]
+            pair = (pk, pr["a"], pr["b"])
             lk = links[pair]
             if ev.target is net and not isinstance(ev, ProcessContinuation):
-                if net.events_dropped_partition != snap["part"]:
+                if net.events_dropped_partition != snap["part"][pk]:
                     fate = "part"
                 elif lk.packets_dropped != snap["drop"][pair]:
                     fate = "loss"
-                elif net.events_routed != snap["routed"]:
+                elif net.events_routed != snap["routed"][pk]:
                     fate = f"fly {lk.latency.get_latency(ev.time).nanoseconds}"
                 else:
                     fate = "-"
@@ -367,7 +436,7 @@ def run_real(case):
                 out.append(f"N {t} {p} h | {fate}")
             else:
                 out.append(f"R {t} {p} | {toks}")
-            snap["part"], snap["routed"] = net.events_dropped_partition, net.events_routed
+            snap["part"][pk], snap["routed"][pk] = net.events_dropped_partition, net.events_routed
             snap["drop"][pair], snap["sent"][pair] = lk.packets_dropped, lk.packets_sent
         elif not qres:
             out.append(f"U {t} {ev.event_type}")
@@ -382,32 +451,41 @@ def run_real(case):
 
 
 def case_lines(case):
-    """the case in the driver's input language (times in ns)"""
+    """the case in the driver's input language (times in ns; a worker as an endpoint on network k is
+    the node worker + k * STRIDE)"""
     n = case["n"]
-    L = [f"n {n}", f"cap {case['cap']}"]
-    for a in range(n):
-        for b in range(n):
-            if a != b:
-                L.append(f"link {a} {b} {case['lat'][a][b] * TICK} {case['loss'][a][b]}")
+    K = case.get("nets", 1)
+    L = [f"n {n}", f"nets {K}", f"cap {case['cap']}"]
+    for k, (lat, loss) in enumerate(net_matrices(case)):
+        for a in range(n):
+            for b in range(n):
+                if a != b:
+                    L.append(f"link {a + k * STRIDE} {b + k * STRIDE} {lat[a][b] * TICK} {loss[a][b]}")
+
+    def v(k, xs):
+        return " ".join(str(x + k * STRIDE) for x in xs)
+
     for f in case["faults"]:
         k = f["k"]
         s = f["s"] * TICK
         r = "none" if f["r"] is None else str(f["r"] * TICK)
         cp = cancel_points(f)
         cs = "p" if "pre" in cp else ("x" if 0 in cp else "o")
+        tn = target_net(case, f) if k in ("part", "lat", "loss") else 0
         if k in ("crash", "pause"):
-            L.append(f"fault {cs} {s} {r} {k} {f['e']}")
+            L.append(f"fault {cs} {s} {r} 0 {k} {f['e']}")
         elif k == "part":
-            L.append(f"fault {cs} {s} {r} part {int(bool(f['asym']))} {' '.join(map(str, f['A']))} / {' '.join(map(str, f['B']))}")
+            L.append(f"fault {cs} {s} {r} {tn} part {int(bool(f['asym']))} {v(tn, f['A'])} / {v(tn, f['B'])}")
         elif k == "lat":
-            L.append(f"fault {cs} {s} {r} lat {f['a']} {f['b']} {f['x'] * TICK}")
+            L.append(f"fault {cs} {s} {r} {tn} lat {v(tn, [f['a'], f['b']])} {f['x'] * TICK}")
         elif k == "loss":
-            L.append(f"fault {cs} {s} {r} loss {f['a']} {f['b']} {f['x']}")
+            L.append(f"fault {cs} {s} {r} {tn} loss {v(tn, [f['a'], f['b']])} {f['x']}")
         elif k == "cap":
-            L.append(f"fault {cs} {s} {r} cap {f['num']} {f['den']}")
+            L.append(f"fault {cs} {s} {r} 0 cap {f['num']} {f['den']}")
     for m in case.get("manual", []):
         if m["op"] == "part":
-            L.append(f"fault m {m['t'] * TICK} none part {int(bool(m['asym']))} {' '.join(map(str, m['A']))} / {' '.join(map(str, m['B']))}")
+            tn = m.get("net", 0)
+            L.append(f"fault m {m['t'] * TICK} none {tn} part {int(bool(m['asym']))} {v(tn, m['A'])} / {v(tn, m['B'])}")
     for job in case["jobs"]:
         ops = []
         for op in job["ops"]:
@@ -419,7 +497,7 @@ def case_lines(case):
                 ops.append(f"{op[0]} {op[1]}")
         L.append(f"job {job['e']} " + " ".join(ops))
     for pr in case["probes"]:
-        L.append(f"probe {pr['a']} {pr['b']}")
+        L.append(f"probe {pr['a']} {pr['b']} {pr.get('net', 0)}")
     return L
 
 
@@ -450,8 +528,14 @@ class C06(core.Property):
             "Partition.heal() - also repeated - and Network.heal_partition() calls interleaved with scheduled partition windows "
             "on overlapping node sets) / stack (2-4 windows of one effect - down, partition, latency, loss, capacity - on one "
             "target with endpoints from a three-point grid: equal starts, equal ends, zero length; or all five effects at once) "
-            "in rotation, plus ghost (a fault naming an entity or link that is not part of the simulation: construction must be "
-            "rejected); non-trivial = some job, probe, delivery, cancel or manual call was processed while a window was open; "
+            "/ inflight (a generator handler of the target sleeping, parked on a future, queued at the resource or just granted "
+            "when the fault hits; what it waits for arrives before / at the edges of / inside / after the window) / multinet "
+            "(2-3 Network entities over the same workers, registered in a shuffled order; partition, latency and loss faults "
+            "with network_name naming each of them or None; direct partition()/heal()/heal_partition() calls on each; probes "
+            "through every network; settings of every network's links judged) in rotation, plus ghost (a fault naming an "
+            "entity, link or network that is not part of the simulation: construction must be rejected); in 35% of all cases "
+            "the workload's events are created before the Simulation is built (early), so that deliveries due exactly at a "
+            "window's start / end instant are older than the fault events; non-trivial = some job, probe, delivery, cancel or manual call was processed while a window was open; "
             "distinct = distinct case content")
     trusted_base = [
         "hv/props/c06.py harness entities (Worker generator, Sink), observation through the public sim.control.on_event hook, "
@@ -472,14 +556,24 @@ class C06(core.Property):
         "FaultHandle.cancel: the pending events are skipped); the property's wording covers cancellation before activation only",
         "Network.heal_partition() ends every partition window open at that moment (scheduled or manual); the scheduled end of a "
         "swept window and a repeated Partition.heal() must change nothing",
-        "a fault naming an unknown entity / link makes Simulation construction fail, also when its handle was cancelled before",
+        "a fault naming an unknown entity / link / network makes Simulation construction fail, also when its handle was cancelled before",
+        "windows are [start, end) on the time axis: at an instant the starts and ends of scheduled windows take effect before every "
+        "other event, whichever event object was created first (judged on every transcript: boundaryCheck)",
+        "network_name=None resolves to the first Network registered with the Simulation (the harness computes that index; the "
+        "Lean case carries the resolved network of every fault); a worker as an endpoint on network k is node worker + 1000*k",
+        "a fault event that generate_events did not hand out (created later by the fault itself) is attributed to the "
+        "lowest-numbered fault of that kind and target whose start / end is due at that time",
     ]
     hypotheses = [
         "WF fs tr: each activation is processed at most once and before the deactivation of its window; a deactivation of a window "
         "that is not active is that of a partition opened before (repeated heal / end of a swept window) (engine exactly-once, time order, start <= end)",
         "Legit c tr: the schedule contains only events of faults of the plan, none after the handle of its fault was cancelled - "
         "before the run (Case.initCanc) or by an earlier event of the schedule (cancelled events are never delivered: C01)",
-        "Clear fs f tr (active_of_inside / inside_of_active only): no Network.heal_partition() call in the schedule if f is a partition window",
+        "Clear fs f tr (active_of_inside / inside_of_active / active_iff_in_window only): no Network.heal_partition() call in the schedule if f is a partition window",
+        "netWF c.faults (part of Legit): every partition names nodes of the one network it resolves to (the harness builds the node ids from the network)",
+        "hb1 / hb2 / hend of active_iff_in_window, up_from_restart_time: when an event that is not a fault boundary is processed at time t, "
+        "the starts due by t and the ends due by t of the scheduled windows come before it in the schedule (FaultSchedule.start gives fault "
+        "events the smallest tie-breaking indices + C01 order; checked on every transcript by the judge clause boundaryCheck); Sorted tr (C01)",
     ]
     partial_theorems = {}
 
@@ -523,7 +617,7 @@ class C06(core.Property):
         r = s + rng.choice([0, 1, 8, 16, 40, 80])
         return "fresh", s, r
 
-    FAMS = ["gate", "net", "cap", "mixed", "cancel", "manual", "stack", "inflight"]
+    FAMS = ["gate", "net", "cap", "mixed", "cancel", "manual", "stack", "inflight", "multinet"]
 
     def generate(self, rng: random.Random, i: int, tier: str) -> dict:
         fam = self.FAMS[i % len(self.FAMS)]
@@ -539,12 +633,15 @@ class C06(core.Property):
             return self.gen_ghost(rng)
         if fam == "inflight":
             return self.gen_inflight(rng)
+        if fam == "multinet":
+            return self.gen_multinet(rng)
         return self.gen_base(rng, fam)
 
     # workload sizes per family: (jobs, probes)
     LOAD = {"gate": ([1, 2, 3, 4], [0, 1, 2]), "net": ([0, 1], [3, 5, 8]), "cap": ([2, 3, 4], [0]),
             "mixed": ([1, 2, 3], [1, 3, 5]), "cancel": ([1, 2, 3], [1, 3, 5]), "manual": ([0, 1], [4, 6, 9]),
-            "stack": ([1, 2, 3], [2, 4, 6]), "ghost": ([0, 1], [0, 1]), "inflight": ([0, 1], [0, 1, 2])}
+            "stack": ([1, 2, 3], [2, 4, 6]), "ghost": ([0, 1], [0, 1]), "inflight": ([0, 1], [0, 1, 2]),
+            "multinet": ([0, 1], [4, 6, 9])}
 
     def topology(self, rng, n):
         cap = rng.choice([4, 8, 16])
@@ -648,6 +745,8 @@ class C06(core.Property):
                 "jobs": jobs, "probes": probes, "seed": rng.randrange(1 << 30), "shapes": shapes}
         if manual:
             case["manual"] = manual
+        if rng.random() < 0.35:
+            case["early"] = True          # the workload's events are created before the Simulation is built
         case["H"] = self.horizon(case)
         return case
 
@@ -901,6 +1000,77 @@ class C06(core.Property):
             probes.append({"a": a, "b": b, "t": rng.choice([s - 1, s, s + 1, r - 1, r, r + 1, arrive])})
         return self.finish("inflight", n, cap, nfut, lat, loss, faults, jobs, probes, rng, shapes)
 
+    def gen_multinet(self, rng):
+        """two or three Network entities over the same workers; partition / latency / loss faults name
+        each of them (network_name given, or None = the first one registered), direct partition calls
+        and heal_partition() on each; probes through every network"""
+        K = rng.choice([2, 2, 3])
+        n = rng.choice([2, 3])
+        cap, lat, loss = self.topology(rng, n)
+        xlat, xloss = [], []
+        for _ in range(K - 1):
+            _, l2, x2 = self.topology(rng, n)
+            xlat.append(l2)
+            xloss.append(x2)
+        order = list(range(K))
+        if rng.random() < 0.5:
+            rng.shuffle(order)
+        focus = rng.randrange(n)
+        fa, fb = rng.sample(range(n), 2)
+        frac_links, faults, wins, shapes = set(), [], [], []
+
+        def pick_net():
+            return rng.choice([None] + list(range(K)) + list(range(1, K)))
+
+        for _ in range(rng.choice([1, 2, 2, 3, 3, 4, 5])):
+            k = rng.choice(["part", "part", "part", "lat", "lat", "loss", "loss", "crash", "pause"])
+            shape, s_, r_ = self.gen_window(rng, wins)
+            shapes.append(shape)
+            f = self.gen_fault(rng, k, n, focus, fa, fb, frac_links)
+            f.update(s=s_, r=r_)
+            if k in ("part", "lat", "loss"):
+                f["net"] = pick_net()
+                if rng.random() < 0.03:
+                    f["net"] = K + 5                 # a network that does not exist
+            elif rng.random() < 0.5:
+                f["e"] = n + rng.randrange(K)        # one of the Network entities
+            if rng.random() < 0.1:
+                f["cancel"] = rng.choice(["pre", 0, max(1, s_ - 1), s_ + 1])
+            faults.append(f)
+            wins.append((s_, r_))
+        manual, mtimes, alls = [], [], []
+        for _ in range(rng.choice([0, 0, 1, 1, 2])):
+            shape, s_, r_ = self.gen_window(rng, wins + mtimes)
+            g = self.gen_fault(rng, "part", n, focus, fa, fb, frac_links)
+            if rng.random() < 0.6:
+                g["A"], g["B"] = [fa], [fb]
+            idx = len(manual)
+            manual.append({"op": "part", "t": s_, "A": g["A"], "B": g["B"], "asym": g["asym"], "net": rng.randrange(K)})
+            for e in rng.choice([[], [r_], [r_], [r_, r_ + 8]]):
+                manual.append({"op": "heal", "h": idx, "t": e})
+            mtimes.append((s_, r_))
+        every = [t for w in wins + mtimes for t in w if t is not None] or [16]
+        for _ in range(rng.choice([0, 0, 1, 1, 2])):
+            t = max(1, rng.choice(every) + rng.choice([-8, -1, 0, 0, 1, 8]))
+            alls.append(t)
+            manual.append({"op": "healall", "t": t, "net": rng.randrange(K)})
+        orderk = {"part": 0, "heal": 2, "healall": rng.choice([1, 3])}
+        msorted = sorted(manual, key=lambda m: (m["t"], orderk[m["op"]]))
+        pos = {id(m): j for j, m in enumerate(msorted)}
+        out = []
+        for m in msorted:
+            m2 = dict(m)
+            if m["op"] == "heal":
+                m2["h"] = pos[id(manual[m["h"]])]
+            out.append(m2)
+        pts = self.around([t for w in wins + mtimes for t in w] + alls)
+        jobs, nfut, probes = self.workload(rng, "multinet", n, cap, pts, focus, fa, fb, frac_links)
+        for pr in probes:
+            pr["net"] = rng.randrange(K)
+        case = self.finish("multinet", n, cap, nfut, lat, loss, faults, jobs, probes, rng, shapes, out)
+        case.update(nets=K, xlat=xlat, xloss=xloss, netorder=order)
+        return case
+
     def gen_ghost(self, rng):
         """a plan in which one fault names an entity / link that is not part of the simulation"""
         case = self.gen_base(rng, rng.choice(["gate", "net", "mixed"]))
@@ -983,6 +1153,8 @@ class C06(core.Property):
                     if x["op"] == "heal" and x["h"] > i:
                         x["h"] -= 1
                 yield with_(manual=keep)
+        if case.get("early"):
+            yield with_(early=False)
         if not man and "manual" in case:
             c = {k: v for k, v in case.items() if k != "manual"}
             yield c
@@ -1128,6 +1300,12 @@ THEOREMS = [
     "HappyModel.C06.heal_all_ends_every_partition",
     "HappyModel.C06.stale_heal_is_noop",
     "HappyModel.C06.winv_unique",
+    "HappyModel.C06.active_iff_in_window",
+    "HappyModel.C06.in_window_of_active",
+    "HappyModel.C06.active_of_in_window",
+    "HappyModel.C06.up_from_restart_time",
+    "HappyModel.C06.delivery_at_restart_time_runs",
+    "HappyModel.C06.winv_healall",
     "HappyModel.C06.inv_at",
     "HappyModel.C06.active_of_inside",
     "HappyModel.C06.inside_of_active",
